@@ -466,6 +466,8 @@ class Canon:
                 call, mode = st.value, "assign"
             elif isinstance(st, ast.Return) and isinstance(st.value, ast.Call):
                 call, mode = st.value, "return"
+            elif isinstance(st, ast.AugAssign) and isinstance(st.value, ast.Call):
+                call, mode = st.value, "aug"
             h = self.helper(f, call) if call is not None else None
             if h is None:
                 out.append(self._inline_exprs(f, st, depth))
@@ -688,6 +690,8 @@ def _replace_returns(body, mode, site):
                     out.append(st)
                 elif mode == "assign":
                     out.append(ast.copy_location(ast.Assign(targets=copy.deepcopy(site.targets), value=v, lineno=st.lineno), st))
+                elif mode == "aug":
+                    out.append(ast.copy_location(ast.AugAssign(target=copy.deepcopy(site.target), op=site.op, value=v), st))
                 elif not _is_pure(v):
                     out.append(ast.copy_location(ast.Expr(value=v), st))
                 continue
